@@ -141,6 +141,31 @@ Proof.
     destruct (m <=? 2); nia.
 Qed.
 
+(* ... and conversely *)
+Theorem civil_year_range_conv z :
+  (let '(y, _, _) := civil_from_days z in 0 <= y <= 9999) ->
+  days_from_civil 0 1 1 <= z <= days_from_civil 9999 12 31.
+Proof.
+  replace (days_from_civil 0 1 1) with (-719528) by (vm_compute; reflexivity).
+  replace (days_from_civil 9999 12 31) with 2932896 by (vm_compute; reflexivity).
+  unfold civil_from_days.
+  set (z' := z + 719468).
+  assert (Hr : 0 <= z' mod 146097 < 146097) by (apply Z.mod_pos_bound; lia).
+  pose proof (split_ok_all _ Hr) as Hok. unfold split_ok in Hok.
+  pose proof (Z.div_mod z' 146097 ltac:(lia)) as Hdm.
+  destruct (split_doe (z' mod 146097)) as [[yoe m] d].
+  apply andb_true_iff in Hok as [Hok Hb].
+  repeat (apply andb_true_iff in Hok as [Hok ?]).
+  apply Z.leb_le in Hok. apply Z.ltb_lt in H1.
+  set (era := z' / 146097) in *. set (doe := z' mod 146097) in *.
+  intro Hy.
+  destruct (146037 <=? doe) eqn:Ed.
+  - apply andb_true_iff in Hb as [Hyoe Hm]. apply Z.eqb_eq in Hyoe. rewrite Hm in Hy. apply Z.leb_le in Ed.
+    assert (-1 <= era <= 23) by lia. unfold z' in *. nia.
+  - apply Z.leb_gt in Ed. apply Z.leb_le in Hb.
+    assert (0 <= era <= 24) by (destruct (m <=? 2); nia). unfold z' in *. nia.
+Qed.
+
 (* seconds since 1970-01-01T00:00:00Z of a civil date-time with an offset in seconds *)
 Definition epoch_seconds (y m d h mi s off : Z) : Z :=
   days_from_civil y m d * 86400 + h * 3600 + mi * 60 + s - off.
